@@ -44,6 +44,8 @@ def rules_c17(ctx):
     out += S.rule_kind_compressed(ctx)
     # Elias-Fano: the rank handed to select0 stays within the number of buckets (otherwise ef.low is indexed with a wild value)
     out += p_eliasfano.rule_select_range(ctx)
+    # the Elias-Fano constructor writes outside its bit vector if a sentinel-keyed segment is coded (universe wraps to 0)
+    out += S.rule_upper_level_sentinel(ctx, 'eliasfano')
     out += rule_back_guard(ctx)
     return out
 
